@@ -97,9 +97,10 @@ Record task_ok (c : Z) (x : tst) : Prop := {
   ok_running : st x = TS_RUNNING ->
       t_starts x = 1 /\ t_finishes x = 0 /\ 0 <= t_remaining_time (t_dyn x) /\
       t_start_time (t_dyn x) <= c /\ t_release_time (t_dyn x) <= t_start_time (t_dyn x) /\ t_runtime x <= t_drawn x /\
+      0 <= t_drawn x /\
       (0 < t_remaining_time (t_dyn x) ->
          t_last_step_time (t_dyn x) = c /\ t_remaining_time (t_dyn x) = t_drawn x - (c - t_start_time (t_dyn x))) /\
-      (t_remaining_time (t_dyn x) = 0 -> t_last_step_time (t_dyn x) = t_start_time (t_dyn x) + t_drawn x);
+      (t_remaining_time (t_dyn x) = 0 -> t_last_step_time (t_dyn x) = t_start_time (t_dyn x) + t_drawn x /\ t_last_step_time (t_dyn x) = c);
   ok_done : done_state (st x) ->
       t_starts x = 1 /\ t_finishes x = 1 /\ t_release_time (t_dyn x) <= t_start_time (t_dyn x) /\
       t_completion_time (t_dyn x) <= c /\ t_start_time (t_dyn x) <= t_completion_time (t_dyn x) /\ t_runtime x <= t_drawn x /\
@@ -458,3 +459,373 @@ Proof.
   - cbn [t_dyn set_dyn]. rewrite R7. exact T3.
   - intros Hin. apply resident_In in Hin. rewrite Hin in G2. discriminate G2.
 Qed.
+
+Lemma parents_done_ext s x x' :
+  t_info x' = t_info x -> t_start_time (t_dyn x') = t_start_time (t_dyn x) -> parents_done s x -> parents_done s x'.
+Proof. unfold parents_done. intros -> ->. auto. Qed.
+
+Lemma pres_start W s t time draw s' :
+  Inv W s -> sim_step W s (EStart t time draw) = Some s' -> Inv W s'.
+Proof.
+  intros I H. cbn [sim_step] in H.
+  destruct (s_tasks s t) as [x|] eqn:Hx; [|discriminate].
+  destruct (cur_is s TASK_PLACEMENT (Some t) && (time =? s_clock s) && resident (s_res s) t && (t_runtime x <=? draw)
+            && (100 * draw <=? 100 * t_runtime x + t_runtime x * w_variance W + 50)) eqn:G; [|discriminate].
+  destruct (task_start (t_dyn x) (Some time) draw) as [[dy u]|c] eqn:R; [|discriminate].
+  injection H as <-. split_andb.
+  match goal with H : cur_is s TASK_PLACEMENT _ = true |- _ => rename H into G1 end.
+  match goal with H : resident _ _ = true |- _ => rename H into G3; apply resident_In in G3 end.
+  assert (time = s_clock s) as -> by lia.
+  apply start_spec in R. destruct R as [R [R1 [R2 [R3 [R4 [R5 [R6 [R7 [R8 [R9 R10]]]]]]]]]].
+  pose proof (inv_tasks W s I t x Hx) as T. destruct T as [T1 T2 T3 T4 T5 T6]. unfold st in *.
+  assert (P1 : pending_state (t_state (t_dyn x))) by (rewrite R; unfold pending_state; auto).
+  destruct (T4 P1) as [S0 F0].
+  eapply inv_update1 with (x' := mkT dy (t_info x) (t_runtime x) (t_ptime x) draw (t_starts x + 1) (t_finishes x));
+    [exact I|exact Hx|apply same_shape_with|reflexivity| |reflexivity| | | |].
+  - apply not_complete_of_state; rewrite R; discriminate.
+  - constructor; unfold st; cbn [t_dyn t_starts t_finishes t_runtime t_drawn].
+    + rewrite R1; discriminate.
+    + unfold pre_ok in *. rewrite R9. exact T2.
+    + lia.
+    + rewrite R1. intros [P|[P|[P|P]]]; discriminate P.
+    + intros _. repeat split; try lia.
+    + rewrite R1. intros [P|P]; discriminate P.
+  - intros _. left. unfold st; cbn [t_dyn]. exact R1.
+  - intros _. left. exact G3.
+  - intros _. destruct (inv_res W s I t G3) as [y [E [A|[A [B C]]]]]; rewrite Hx in E; injection E as <-.
+    + unfold st in A. congruence.
+    + eapply parents_ok_done; [exact I|exact C|reflexivity|cbn [t_dyn]; exact R2].
+Qed.
+
+Lemma pres_finish W s t s' :
+  Inv W s -> sim_step W s (EFinish t) = Some s' -> Inv W s'.
+Proof.
+  intros I H. cbn [sim_step] in H.
+  destruct (s_tasks s t) as [x|] eqn:Hx; [|discriminate].
+  destruct (cur_is s TASK_FINISHED (Some t) && negb (resident (s_res s) t)) eqn:G; [|discriminate].
+  destruct (task_finish (t_dyn x) None) as [[dy u]|c] eqn:R; [|discriminate].
+  injection H as <-. apply andb_true_iff in G. destruct G as [G1 G2].
+  apply finish_spec in R. destruct R as [R [R1 [R2 [R3 [R4 [R5 [R6 [R7 R8]]]]]]]].
+  pose proof (inv_tasks W s I t x Hx) as T. destruct T as [T1 T2 T3 T4 T5 T6]. unfold st in *.
+  destruct R as [R|R]; [|contradiction].
+  destruct (T5 R) as [S1 [F0 [Rem0 [St [Rel [Rt [Dr [Pos Zero]]]]]]]].
+  eapply inv_update1 with (x' := mkT dy (t_info x) (t_runtime x) (t_ptime x) (t_drawn x) (t_starts x) (t_finishes x + 1));
+    [exact I|exact Hx| |reflexivity| |reflexivity| | | |].
+  - unfold same_shape; cbn. auto.
+  - apply not_complete_of_state; rewrite R; discriminate.
+  - assert (D : done_state (t_state dy)) by (destruct R1 as [[_ B]|[_ B]]; rewrite B; unfold done_state; auto).
+    assert (Hl : t_start_time (t_dyn x) <= t_last_step_time (t_dyn x)).
+    { destruct (Z_lt_le_dec 0 (t_remaining_time (t_dyn x))) as [Hp|Hz]; [destruct (Pos Hp); lia|].
+      assert (t_remaining_time (t_dyn x) = 0) as Z0 by lia. destruct (Zero Z0) as [Zr _]. rewrite Zr. lia. }
+    constructor; unfold st; cbn [t_dyn t_starts t_finishes t_runtime t_drawn].
+    + destruct D as [D|D]; rewrite D; discriminate.
+    + unfold pre_ok in *. rewrite R7. exact T2.
+    + rewrite R6. exact T3.
+    + intros P. exfalso. destruct D as [D|D]; rewrite D in P; destruct P as [P|[P|[P|P]]]; discriminate P.
+    + intros Q. exfalso. destruct D as [D|D]; congruence.
+    + intros _. rewrite R2, R3, R4. repeat split; try lia.
+      intros C. destruct R1 as [[Z0 _]|[_ B]]; [destruct (Zero Z0) as [Zr _]; rewrite Zr; reflexivity|congruence].
+  - intros Hin. apply resident_In in Hin. rewrite Hin in G2. discriminate G2.
+  - unfold st; cbn [t_dyn]. intros Q. exfalso. destruct R1 as [[_ B]|[_ B]]; congruence.
+  - cbn [t_starts]. intros _. eapply parents_done_ext with (x := x); [reflexivity|cbn [t_dyn]; exact R3|].
+    eapply (inv_dep W s I); eassumption.
+Qed.
+
+(* ---- events that change the set of resident tasks *)
+Lemma fits_cap W res w req r :
+  fits W res w req = true -> used res w r + qty req r <= w_cap W w r \/ qty req r = 0.
+Proof.
+  unfold fits. intros H. apply andb_true_iff in H. destruct H as [H _]. rewrite forallb_forall in H.
+  destruct (existsb (fun nq => fst nq =? r) req) eqn:E.
+  - apply existsb_exists in E. destruct E as [nq [Hin Hr]]. specialize (H nq Hin). left.
+    assert (fst nq = r) as <- by lia. lia.
+  - right. apply qty_absent. intros nq Hin Hr. assert (existsb (fun nq => fst nq =? r) req = true) as X.
+    { apply existsb_exists. exists nq. split; [assumption|lia]. }
+    congruence.
+Qed.
+
+Lemma grows_refl s s' : s_tasks s' = s_tasks s -> grows s s'.
+Proof. intros E p y Hp C. rewrite E. exists y. auto. Qed.
+
+Lemma parents_ok_same s s' x : s_tasks s' = s_tasks s -> parents_ok s' x = parents_ok s x.
+Proof.
+  intros E. unfold parents_ok, complete. rewrite E. reflexivity.
+Qed.
+
+Lemma parents_done_same s s' x : s_tasks s' = s_tasks s -> parents_done s x -> parents_done s' x.
+Proof. intros E. apply parents_done_grows; [apply grows_refl; exact E|reflexivity|reflexivity]. Qed.
+
+Lemma pres_place W s t w req s' :
+  Inv W s -> sim_step W s (EPlace t w req) = Some s' -> Inv W s'.
+Proof.
+  intros I H. cbn [sim_step] in H.
+  destruct (s_tasks s t) as [x|] eqn:Hx; [|discriminate].
+  destruct (cur_is s TASK_PLACEMENT (Some t) && is_ready s x && fits W (s_res s) w req && negb (resident (s_res s) t)) eqn:G; [|discriminate].
+  injection H as <-. split_andb.
+  match goal with H : cur_is s TASK_PLACEMENT _ = true |- _ => rename H into G1 end.
+  match goal with H : is_ready _ _ = true |- _ => rename H into G2 end.
+  match goal with H : fits _ _ _ _ = true |- _ => rename H into G3 end.
+  match goal with H : negb _ = true |- _ => rename H into G4 end.
+  assert (Hnr : ~ In t (ids (s_res s))) by (intro X; apply resident_In in X; rewrite X in G4; discriminate G4).
+  pose proof (inv_tasks W s I t x Hx) as T. destruct T as [T1 T2 T3 T4 T5 T6]. unfold st in *.
+  unfold is_ready in G2. apply andb_true_iff in G2. destruct G2 as [Gp Gs].
+  assert (Hs : t_state (t_dyn x) = TS_SCHEDULED).
+  { apply orb_true_iff in Gs. destruct Gs as [Gs|Gs]; apply ts_eqb_true in Gs; [exact Gs|contradiction]. }
+  constructor; cbn [s_clock s_tasks s_dom s_res s_cur].
+  - apply (inv_clock W s I).
+  - apply (inv_dom W s I).
+  - apply (inv_tasks W s I).
+  - intros w' r. cbn [used]. destruct (w =? w') eqn:E.
+    + assert (w = w') as <- by lia. pose proof (inv_cap W s I w r). destruct (fits_cap W _ _ _ r G3); lia.
+    + pose proof (inv_cap W s I w' r). lia.
+  - intros e [<-|He] r; [|apply (inv_req W s I); exact He]. cbn [snd]. apply qty_nonneg.
+    unfold fits in G3. apply andb_true_iff in G3. tauto.
+  - cbn [ids map fst]. constructor; [exact Hnr|apply (inv_nodup W s I)].
+  - cbn [ids map fst]. intros u [<-|Hu].
+    + exists x. split; [exact Hx|]. right. unfold st. split; [exact Hs|]. split; [|exact Gp].
+      rewrite <- G1. apply cur_is_same. reflexivity.
+    + destruct (inv_res W s I u Hu) as [y [E [A|[A [B C]]]]]; exists y; (split; [exact E|]); [left; exact A|right].
+      split; [exact A|]. split; [rewrite <- B; apply cur_is_same; reflexivity|].
+      rewrite <- C. apply parents_ok_same. reflexivity.
+  - cbn [ids map fst]. intros u y E R. destruct (inv_run W s I u y E R) as [A|A]; [left; right; exact A|right].
+    rewrite <- A. apply cur_is_same. reflexivity.
+  - intros u y E S1. eapply parents_done_same; [reflexivity|]. eapply (inv_dep W s I); eassumption.
+Qed.
+
+Lemma remove_res_keeps res t u : u <> t -> In u (ids res) -> In u (ids (remove_res res t)).
+Proof.
+  induction res as [|e rest IH]; cbn; intros Hne H; [contradiction|].
+  destruct (fst (fst e) =? t) eqn:E.
+  - destruct H as [H|H]; [lia|exact H].
+  - cbn. destruct H as [H|H]; [left; exact H|right; apply IH; assumption].
+Qed.
+
+Lemma pres_remove W s t w s' :
+  Inv W s -> sim_step W s (ERemove t w) = Some s' -> Inv W s'.
+Proof.
+  intros I H. cbn [sim_step] in H.
+  destruct (cur_is s TASK_FINISHED (Some t) && resident_on (s_res s) t w) eqn:G; [|discriminate].
+  injection H as <-. apply andb_true_iff in G. destruct G as [G1 G2].
+  constructor; cbn [s_clock s_tasks s_dom s_res s_cur].
+  - apply (inv_clock W s I).
+  - apply (inv_dom W s I).
+  - apply (inv_tasks W s I).
+  - intros w' r. pose proof (inv_cap W s I w' r).
+    pose proof (used_remove_le (s_res s) t w' r (fun e He => inv_req W s I e He r)). lia.
+  - intros e He. apply (inv_req W s I). eapply remove_res_In; exact He.
+  - apply remove_res_nodup. apply (inv_nodup W s I).
+  - intros u Hu. apply remove_res_ids in Hu.
+    destruct (inv_res W s I u Hu) as [y [E [A|[A [B C]]]]]; exists y; (split; [exact E|]); [left; exact A|right].
+    split; [exact A|]. split; [rewrite <- B; apply cur_is_same; reflexivity|].
+    rewrite <- C. apply parents_ok_same. reflexivity.
+  - intros u y E R. destruct (Z.eq_dec u t) as [->|Hne].
+    + right. rewrite <- G1. apply cur_is_same. reflexivity.
+    + destruct (inv_run W s I u y E R) as [A|A]; [left; apply remove_res_keeps; assumption|right].
+      rewrite <- A. apply cur_is_same. reflexivity.
+  - intros u y E S1. eapply parents_done_same; [reflexivity|]. eapply (inv_dep W s I); eassumption.
+Qed.
+
+(* ---- events that change the handler context *)
+Lemma cur_is_none s ty t : s_cur s = None -> cur_is s ty t = false.
+Proof. unfold cur_is. intros ->. reflexivity. Qed.
+
+Lemma pres_handle W s ty time t s' :
+  Inv W s -> sim_step W s (EHandle ty time t) = Some s' -> Inv W s'.
+Proof.
+  intros I H. cbn [sim_step] in H.
+  destruct (s_cur s) as [c|] eqn:Hc; [discriminate|].
+  destruct (time =? s_clock s) eqn:G; [|discriminate]. injection H as <-.
+  constructor; cbn [s_clock s_tasks s_dom s_res s_cur].
+  - apply (inv_clock W s I).
+  - apply (inv_dom W s I).
+  - apply (inv_tasks W s I).
+  - apply (inv_cap W s I).
+  - apply (inv_req W s I).
+  - apply (inv_nodup W s I).
+  - intros u Hu. destruct (inv_res W s I u Hu) as [y [E [A|[A [B C]]]]]; exists y; (split; [exact E|]); [left; exact A|].
+    rewrite (cur_is_none s _ _ Hc) in B. discriminate B.
+  - intros u y E R. destruct (inv_run W s I u y E R) as [A|A]; [left; exact A|].
+    rewrite (cur_is_none s _ _ Hc) in A. discriminate A.
+  - intros u y E S1. eapply parents_done_same; [reflexivity|]. eapply (inv_dep W s I); eassumption.
+Qed.
+
+Lemma pres_handled W s s' :
+  Inv W s -> sim_step W s EHandled = Some s' -> Inv W s'.
+Proof.
+  intros I H. cbn [sim_step] in H.
+  destruct (s_cur s) as [c|] eqn:Hc; [|discriminate].
+  destruct (quiescent_ok s) eqn:Q; [|discriminate]. injection H as <-.
+  unfold quiescent_ok in Q. apply andb_true_iff in Q. destruct Q as [Q1 Q2]. rewrite forallb_forall in Q1, Q2.
+  constructor; cbn [s_clock s_tasks s_dom s_res s_cur].
+  - apply (inv_clock W s I).
+  - apply (inv_dom W s I).
+  - apply (inv_tasks W s I).
+  - apply (inv_cap W s I).
+  - apply (inv_req W s I).
+  - apply (inv_nodup W s I).
+  - intros u Hu. unfold ids in Hu. apply in_map_iff in Hu. destruct Hu as [e [<- He]]. specialize (Q1 e He).
+    unfold running in Q1. destruct (s_tasks s (fst (fst e))) as [y|] eqn:E; [|discriminate].
+    exists y. split; [reflexivity|]. left. apply ts_eqb_true. exact Q1.
+  - intros u y E R. left. specialize (Q2 u (inv_dom W s I u y E)). unfold running in Q2. rewrite E in Q2.
+    unfold st in R. rewrite R in Q2. cbn in Q2. apply resident_In. exact Q2.
+  - intros u y E S1. eapply parents_done_same; [reflexivity|]. eapply (inv_dep W s I); eassumption.
+Qed.
+
+(* ---- the clock: one iteration of simulate() *)
+Lemma task_ok_later c c' x :
+  c <= c' -> st x <> TS_RUNNING -> task_ok c x -> task_ok c' x.
+Proof.
+  intros L N [T1 T2 T3 T4 T5 T6]. constructor; try assumption.
+  - lia.
+  - intros Q. contradiction.
+  - intros D. destruct (T6 D) as [A [B [C [E F]]]]. repeat split; try assumption; try lia; tauto.
+Qed.
+
+Lemma pres_step W s d next s' :
+  Inv W s -> sim_step W s (EStep d next) = Some s' -> Inv W s'.
+Proof.
+  intros I H. cbn [sim_step] in H.
+  destruct (s_cur s) as [c|] eqn:Hc; [discriminate|].
+  remember (match min_rem s (s_res s) with
+            | Some m => if m <? next - s_clock s then m else next - s_clock s
+            | None => next - s_clock s end) as expect eqn:He.
+  destruct ((d =? expect) && (0 <=? d)) eqn:G; [|discriminate].
+  destruct (step_tasks (s_tasks s) (s_res s) (s_clock s) d) as [f|] eqn:Hst; [|discriminate].
+  injection H as <-. apply andb_true_iff in G. destruct G as [G1 G2].
+  destruct (step_tasks_spec _ _ _ _ _ Hst (inv_nodup W s I)) as [Out In_].
+  (* every resident task is RUNNING here (no handler is active) *)
+  assert (ResRun : forall u, In u (ids (s_res s)) -> exists x, s_tasks s u = Some x /\ st x = TS_RUNNING).
+  { intros u Hu. destruct (inv_res W s I u Hu) as [y [E [A|[A [B C]]]]]; [exists y; auto|].
+    rewrite (cur_is_none s _ _ Hc) in B. discriminate B. }
+  assert (RunRes : forall u y, s_tasks s u = Some y -> st y = TS_RUNNING -> In u (ids (s_res s))).
+  { intros u y E R. destruct (inv_run W s I u y E R) as [A|A]; [exact A|]. rewrite (cur_is_none s _ _ Hc) in A. discriminate A. }
+  (* the step never exceeds the remaining time of a resident task *)
+  assert (Dle : forall u x, In u (ids (s_res s)) -> s_tasks s u = Some x -> d <= t_remaining_time (t_dyn x)).
+  { intros u x Hu E. destruct (min_rem_le s (s_res s) u Hu) as [m [Em Lm]]. unfold rem_of in Lm. rewrite E in Lm.
+    rewrite Em in He. destruct (m <? next - s_clock s) eqn:C; lia. }
+  assert (G : grows s (mkSim (s_clock s + d) f (s_dom s) (s_res s) None (s_fin s) (s_canc s))).
+  { intros p y Hp Cy. cbn [s_tasks]. destruct (in_dec Z.eq_dec p (ids (s_res s))) as [Hin|Hnin].
+    - destruct (ResRun p Hin) as [x [E R]]. rewrite Hp in E. injection E as <-. apply is_complete_done in Cy.
+      unfold st in R. destruct Cy as [Cy|Cy]; congruence.
+    - rewrite (Out p Hnin). exists y. auto. }
+  (* what happens to a resident task *)
+  assert (Stepped : forall u x, In u (ids (s_res s)) -> s_tasks s u = Some x ->
+            exists dy, f u = Some (set_dyn x dy) /\ t_state dy = TS_RUNNING /\ t_start_time dy = t_start_time (t_dyn x) /\
+                       task_ok (s_clock s + d) (set_dyn x dy)).
+  { intros u x Hu E. destruct (In_ u Hu) as [x0 [dy [b [E0 [Ts Fu]]]]]. rewrite E in E0. injection E0 as <-.
+    exists dy. split; [exact Fu|]. destruct (ResRun u Hu) as [x1 [E1 R]]. rewrite E in E1. injection E1 as <-.
+    pose proof (inv_tasks W s I u x E) as T. destruct T as [T1 T2 T3 T4 T5 T6]. unfold st in *.
+    destruct (T5 R) as [S1 [F0 [Rem0 [St [Rel [Rt [Dr [Pos Zero]]]]]]]].
+    pose proof (Dle u x Hu E) as Dl.
+    apply step_spec in Ts. destruct Ts as [A1 [A2 [A3 [A4 [A5 [A6 [A7 [A8 A9]]]]]]]].
+    split; [congruence|]. split; [exact A4|].
+    destruct (Z.eq_dec (t_remaining_time (t_dyn x)) 0) as [Z0|NZ].
+    - (* waiting for its TASK_FINISHED event: nothing moves, not even the clock *)
+      assert (d = 0) by lia. subst d. rewrite (A8 R Z0). replace (s_clock s + 0) with (s_clock s) by lia.
+      replace (set_dyn x (t_dyn x)) with x by (destruct x; reflexivity).
+      constructor; assumption.
+    - assert (Hp : 0 < t_remaining_time (t_dyn x)) by lia. destruct (Pos Hp) as [L1 L2].
+      specialize (A9 R ltac:(lia) NZ). cbv zeta in A9. rewrite L1 in A9.
+      constructor; unfold st; cbn [t_dyn set_dyn t_starts t_finishes t_runtime t_drawn].
+      + congruence.
+      + unfold pre_ok in *. rewrite A2. exact T2.
+      + destruct A9 as [[B1 [B2 [B3 B4]]]|[B1 [B2 [B3 B4]]]]; lia.
+      + intros P. exfalso. rewrite A1, R in P. destruct P as [P|[P|[P|P]]]; discriminate P.
+      + intros _. rewrite A3, A4. destruct A9 as [[B1 [B2 [B3 B4]]]|[B1 [B2 [B3 B4]]]]; repeat split; try lia.
+      + intros D. exfalso. rewrite A1, R in D. destruct D as [D|D]; discriminate D. }
+  constructor; cbn [s_clock s_tasks s_dom s_res s_cur].
+  - pose proof (inv_clock W s I). lia.
+  - intros u y E. destruct (in_dec Z.eq_dec u (ids (s_res s))) as [Hin|Hnin].
+    + destruct (ResRun u Hin) as [x [Ex _]]. eapply (inv_dom W s I); exact Ex.
+    + rewrite (Out u Hnin) in E. eapply (inv_dom W s I); exact E.
+  - intros u y E. destruct (in_dec Z.eq_dec u (ids (s_res s))) as [Hin|Hnin].
+    + destruct (ResRun u Hin) as [x [Ex _]]. destruct (Stepped u x Hin Ex) as [dy [Fu [_ [_ Ok]]]].
+      rewrite Fu in E. injection E as <-. exact Ok.
+    + rewrite (Out u Hnin) in E. apply task_ok_later with (c := s_clock s); [lia| |apply (inv_tasks W s I u y E)].
+      intros R. apply Hnin. eapply RunRes; eassumption.
+  - apply (inv_cap W s I).
+  - apply (inv_req W s I).
+  - apply (inv_nodup W s I).
+  - intros u Hu. destruct (ResRun u Hu) as [x [Ex _]]. destruct (Stepped u x Hu Ex) as [dy [Fu [R _]]].
+    exists (set_dyn x dy). split; [exact Fu|]. left. exact R.
+  - intros u y E R. left. destruct (in_dec Z.eq_dec u (ids (s_res s))) as [Hin|Hnin]; [exact Hin|].
+    rewrite (Out u Hnin) in E. eapply RunRes; eassumption.
+  - intros u y E S1. destruct (in_dec Z.eq_dec u (ids (s_res s))) as [Hin|Hnin].
+    + destruct (ResRun u Hin) as [x [Ex _]]. destruct (Stepped u x Hin Ex) as [dy [Fu [_ [St _]]]].
+      rewrite Fu in E. injection E as <-. eapply parents_done_grows with (x := x); [exact G|reflexivity|exact St|].
+      eapply (inv_dep W s I); [exact Ex|exact S1].
+    + rewrite (Out u Hnin) in E. eapply parents_done_grows; [exact G|reflexivity|reflexivity|].
+      eapply (inv_dep W s I); eassumption.
+Qed.
+
+(* ---- a new task graph is loaded *)
+Lemma pres_graph W s ts s' :
+  Inv W s -> sim_step W s (EGraph ts) = Some s' -> Inv W s'.
+Proof.
+  intros I H. cbn [sim_step] in H.
+  destruct (fresh s ts && nodup_ids ts) eqn:G; [|discriminate]. injection H as <-.
+  apply andb_true_iff in G. destruct G as [G1 G2].
+  assert (Old : forall u y, s_tasks s u = Some y -> add_tasks (s_tasks s) ts u = Some y).
+  { intros u y E. rewrite add_tasks_other; [exact E|]. eapply fresh_spec; eassumption. }
+  assert (Gr : grows s (mkSim (s_clock s) (add_tasks (s_tasks s) ts) (map (fun e => fst (fst (fst e))) ts ++ s_dom s)
+                              (s_res s) (s_cur s) (s_fin s) (s_canc s))).
+  { intros p y Hp Cy. exists y. cbn [s_tasks]. rewrite (Old p y Hp). auto. }
+  assert (Split : forall u y, add_tasks (s_tasks s) ts u = Some y ->
+            s_tasks s u = Some y \/ (In u (map (fun e => fst (fst (fst e))) ts) /\
+                                     exists info rel dl, y = mkT (task_init rel dl) info 0 (-1) (-1) 0 0)).
+  { intros u y E. destruct (in_dec Z.eq_dec u (map (fun e => fst (fst (fst e))) ts)) as [Hin|Hnin].
+    - right. split; [exact Hin|]. destruct (add_tasks_new ts (s_tasks s) u G2 Hin) as [info [rel [dl E']]].
+      rewrite E' in E. injection E as <-. eauto.
+    - left. rewrite add_tasks_other in E; [exact E|]. intros e He X. apply Hnin. apply in_map_iff. exists e. auto. }
+  constructor; cbn [s_clock s_tasks s_dom s_res s_cur].
+  - apply (inv_clock W s I).
+  - intros u y E. apply in_or_app. destruct (Split u y E) as [A|[A _]]; [right; eapply (inv_dom W s I); exact A|left; exact A].
+  - intros u y E. destruct (Split u y E) as [A|[_ [info [rel [dl ->]]]]]; [apply (inv_tasks W s I u y A)|].
+    pose proof (inv_clock W s I). unfold task_init.
+    constructor; unfold st; cbn [t_dyn t_state t_pre_scheduling_state t_last_step_time t_starts t_finishes].
+    + discriminate.
+    + unfold pre_ok. cbn. left. reflexivity.
+    + lia.
+    + intros _. split; reflexivity.
+    + intros Q; discriminate Q.
+    + intros [Q|Q]; discriminate Q.
+  - apply (inv_cap W s I).
+  - apply (inv_req W s I).
+  - apply (inv_nodup W s I).
+  - intros u Hu. destruct (inv_res W s I u Hu) as [y [E [A|[A [B C]]]]]; exists y; (split; [apply Old; exact E|]); [left; exact A|right].
+    split; [exact A|]. split; [rewrite <- B; apply cur_is_same; reflexivity|]. eapply parents_ok_grows; [exact Gr|exact C].
+  - intros u y E R. destruct (Split u y E) as [A|[_ [info [rel [dl ->]]]]].
+    + destruct (inv_run W s I u y A R) as [X|X]; [left; exact X|right]. rewrite <- X. apply cur_is_same. reflexivity.
+    + unfold st, task_init in R. cbn in R. discriminate R.
+  - intros u y E S1. destruct (Split u y E) as [A|[_ [info [rel [dl ->]]]]].
+    + eapply parents_done_grows; [exact Gr|reflexivity|reflexivity|]. eapply (inv_dep W s I); eassumption.
+    + cbn in S1. discriminate S1.
+Qed.
+
+(* ------------------------------------------------------------------ every accepted log *)
+Theorem step_preserves_inv W s e s' : Inv W s -> sim_step W s e = Some s' -> Inv W s'.
+Proof.
+  intros I H. destruct e.
+  - eapply pres_graph; eassumption.
+  - eapply pres_step; eassumption.
+  - eapply pres_handle; eassumption.
+  - eapply pres_handled; eassumption.
+  - eapply pres_release; eassumption.
+  - eapply pres_schedule; eassumption.
+  - eapply pres_unschedule; eassumption.
+  - eapply pres_place; eassumption.
+  - eapply pres_start; eassumption.
+  - eapply pres_remove; eassumption.
+  - eapply pres_finish; eassumption.
+  - eapply pres_cancel; eassumption.
+Qed.
+
+Theorem exec_preserves_inv W l : forall s s', Inv W s -> sim_exec W s l = Some s' -> Inv W s'.
+Proof.
+  induction l as [|e rest IH]; cbn [sim_exec]; intros s s' I H.
+  - injection H as <-. exact I.
+  - destruct (sim_step W s e) as [s1|] eqn:E; [|discriminate]. eapply IH; [|exact H]. eapply step_preserves_inv; eassumption.
+Qed.
+
+Theorem reachable_inv W l s : cap_nonneg W -> sim_exec W sim_init l = Some s -> Inv W s.
+Proof. intros HW H. eapply exec_preserves_inv; [apply inv_init; exact HW|exact H]. Qed.
